@@ -38,8 +38,9 @@ type dims struct {
 	IDTTL       string `json:"id_token_lifetime"`
 	AccessTTL   string `json:"access_ttl"`
 	Assertion   bool   `json:"id_token_userinfo_assertion"`
-	Extras      bool   `json:"storage_extras"` // CanSetUserinfoFromRequest, CanGetPrivateClaimsFromRequest, JWTProfileTokenStorage
-	Custom      string `json:"custom_claims"`  // none | benign | collide-registered | collide-userinfo
+	Extras      bool   `json:"storage_extras"`                              // CanSetUserinfoFromRequest, CanGetPrivateClaimsFromRequest, JWTProfileTokenStorage
+	Custom      string `json:"custom_claims"`                               // none | benign | collide-registered | collide-userinfo
+	DropIDScope string `json:"id_token_scopes_dropped_by_client,omitempty"` // RestrictAdditionalIdTokenScopes
 	IssuerMode  string `json:"issuer_mode"`
 	Client      string `json:"client"`
 	Scope       string `json:"scope"`
@@ -79,6 +80,7 @@ type env struct {
 
 	algs    []jose.SignatureAlgorithm // every alg a token of this case may be signed with
 	kidless bool
+	dropID  []string // scopes the clients' RestrictAdditionalIdTokenScopes removes
 	sigKey  *keys.Key
 	custom  customCfg
 	trace   []traceEntry
@@ -168,7 +170,7 @@ func newEnv(run *ev.Run, caseIdx, router int) *env {
 	accessTTL := pick(r, accessTTLs...)
 	d.Skew, d.IDTTL, d.AccessTTL = skew.String(), idTTL.String(), accessTTL.String()
 	d.Assertion = r.IntN(2) == 0
-	d.Extras = r.IntN(3) == 0
+	d.Extras = r.IntN(2) == 0
 	d.Custom = pick(r, "none", "benign", "collide-registered", "collide-registered", "collide-userinfo")
 	d.IssuerMode = pick(r, issuerModes...)
 	e.issuerMode = d.IssuerMode
@@ -235,14 +237,25 @@ func newEnv(run *ev.Run, caseIdx, router int) *env {
 		return nil
 	}
 	e.w = w
-	w.Store.SetJournal(false)
+	// the journal stays on: the oracle reads which scope lists the storage was handed for the user claims
 	w.Store.SetSigningKey(e.sigKey, published...)
 	w.Store.AccessTTL = accessTTL
 	if d.Extras && tokenType == op.AccessTokenTypeJWT {
 		w.Store.JWTProfileType = op.AccessTokenTypeJWT
 	}
 	e.cl = opdrv.StdClients(w.Store)
+	var drop []string
+	if r.IntN(3) == 0 {
+		for _, sc := range []string{"profile", "email", "phone", "address"} {
+			if r.IntN(3) == 0 {
+				drop = append(drop, sc)
+			}
+		}
+	}
+	d.DropIDScope = strings.Join(drop, " ")
+	e.dropID = drop
 	for _, c := range e.cl {
+		c.DropIDTokenScopes = drop
 		c.TokenType = tokenType
 		c.Skew = skew
 		c.IDTokenTTL = idTTL
@@ -427,6 +440,7 @@ type tokenResp struct {
 	ExpiresIn                                                float64
 	HasExpiresIn                                             bool
 	T0, T1                                                   time.Time // bracket of the request that produced it
+	Seq                                                      int64     // event counter when that request started (journal window)
 	Issuer                                                   string    // issuer of that request
 	Raw                                                      any
 }
@@ -436,7 +450,7 @@ func fromJSON(resp *opdrv.Resp) *tokenResp {
 	if resp.Status != 200 || m == nil {
 		return nil
 	}
-	t := &tokenResp{Raw: m}
+	t := &tokenResp{Raw: m, Seq: resp.SeqStart}
 	t.Access, _ = m["access_token"].(string)
 	t.Refresh, _ = m["refresh_token"].(string)
 	t.ID, _ = m["id_token"].(string)
